@@ -5,6 +5,7 @@ props=[json.loads(l) for l in open('/verif/properties.jsonl')]
 claimed={
  "C01":("orchestrator step refinement: one symbolic command from an arbitrary valid two-tier state through the real DefaultServer.Loop and the real orcas (9 configurations) against the single-map reference; induction over histories","§C01","symbolic execution of go/ssa + SMT (Z3), inductive step from arbitrary valid state"),
  "C02":("same harness: representation invariant (L1 subset of L2, not outliving it) re-established by every command from every invariant-satisfying state, replies independent of L1 contents","§C02","symbolic execution + SMT, inductive invariant"),
+ "C03":("bounded model checking of the real LockedOrca over the real L1L2 / L1L2Batch orcas: two connections (main port and batch port on one lock set) x one symbolic command each, every interleaving at lock operations and backend calls; linearizability against the reference map and L1-consistent-with-L2 at the end; both ports share locker objects and the stripe is a function of the key","§C03","exhaustive schedule exploration (bounded) with symbolic data, SMT-decided linearizability oracle"),
  "C04":("real chunked.Handler over an in-process memcached model: one symbolic command from an arbitrary well-formed backend state, result / returned bytes / complete backend post-state / set of backend keys touched compared with the reference map; derived-key injectivity for symbolic client keys","§C04","symbolic execution of the real handler + SMT, inductive step from arbitrary well-formed backend state"),
  "C05":("real chunked get / get-and-touch / append over the memcached model with every subset of a value's backend entries lost: result is the full value or a miss","§C05","symbolic execution + SMT, lost-entry subsets as environment choices"),
  "C07":("binary and text parsers decode pipelines of symbolic requests produced by independent encoders, at every read boundary; first-byte disambiguation over all 256 bytes","§C07","symbolic execution of the real parsers + SMT, differential against independent encoders"),
@@ -20,6 +21,7 @@ claimed={
 notes={
  "C01":"model handlers stand for the backends (wire level and real std/chunked handlers: C04/C08/C10 harnesses); bounds: 2 keys, values <= 2 bytes, gets <= 2 keys, clock frozen within a command",
  "C02":"as C01; eviction invisibility follows from the pre-state ranging over every L1 subset of L2",
+ "C03":"2 connections x 1 command; 1 key / 1 stripe (quick), 2 keys / 2 stripes (thorough); more connections and longer programs outside the bound; app/memproxy.go wiring of the constructors is not executed (the constructors it calls are)",
  "C04":"key lengths 5 (quick), 1 and 250 (thorough); value lengths {0,1,2,p-1,p,p+1,2p,2p+1} (+3p thorough); long values symbolic at the chunk borders only; one known finding (surplus chunks of an overwritten longer value survive delete)",
  "C05":"1..3 chunks quick, 1..6 thorough; interleaved concurrent writers are not part of the check yet",
  "C07":"lengths concrete per run (listed in evidence), contents symbolic; > 2 requests per pipeline and > 1 cut (quick) outside the bound",
